@@ -219,6 +219,8 @@ func runC01(w *World, c *Check) {
 
 	// shared with C14: the keytab filter
 	keytabFilterRule(w, c, "C01.keytab")
+	// the comparison helpers the check-lists rely on
+	ruleEqualityHelpers(w, c, "C01.equal")
 }
 
 // noteStrictness prints which time comparisons are strict (the property does
